@@ -280,6 +280,16 @@ func (e *depEngine) analyse(f *ssa.Function) *depFn {
 						st := par.Type().Underlying().(*types.Pointer).Elem().Underlying().(*types.Struct)
 						upd(d.depOf(x).add(d.label("field:" + par.Name() + "." + st.Field(x.Field).Name())))
 					}
+					// a field promoted from an embedded struct: P.x where P embeds the struct that has x
+					if in, ok := x.X.(*ssa.FieldAddr); ok {
+						if par, ok := in.X.(*ssa.Parameter); ok {
+							if ost, ok := par.Type().Underlying().(*types.Pointer).Elem().Underlying().(*types.Struct); ok && ost.Field(in.Field).Embedded() {
+								if ist, ok := ost.Field(in.Field).Type().Underlying().(*types.Struct); ok {
+									upd(d.depOf(x).add(d.label("field:" + par.Name() + "." + ist.Field(x.Field).Name())))
+								}
+							}
+						}
+					}
 				case *ssa.Field:
 					flow(x, x.X)
 					if par, ok := x.X.(*ssa.Parameter); ok {
